@@ -52,6 +52,16 @@ impl FontSpec {
             "z" => vec![0; n],
             "o" => vec![0xFF; n],
             "i" => (0..n).map(|i| (i / self.h.max(1)) as u8).collect(),
+            // the built-in default font's own glyph bytes (height 16); seed k > 0: bit (k-1) of them flipped — ONE bit away
+            // from the font an XBin file may leave out
+            "d" => {
+                let mut d = BitFont::default().convert_to_u8_data();
+                if self.seed > 0 {
+                    let k = (self.seed - 1) as usize % (d.len() * 8);
+                    d[k / 8] ^= 1 << (k % 8);
+                }
+                d
+            }
             _ => (0..n).map(|i| (i % 251) as u8).collect(),
         }
     }
@@ -571,6 +581,20 @@ pub fn cases(rng: &mut Rng, thorough: bool) -> Vec<String> {
         v.push(format!("box:xb:{opts}:1:c{}:4x1:{}:0=p0.0.0.q,3=r.8.{}.-", rng.below(1000), rng.below(50), rng.below(1000)));
     }
     v.push(format!("box:xb:1:1:c7:2x1:3:0=i.16.{}.n", rng.below(1000)));
+    // the embedding decision (`BitFont::is_default`, repaired): NAMED like the default font with other glyphs / another
+    // height -> block; the default glyphs under the default name -> no block; the default glyphs under another name -> block;
+    // one bit away from the default glyphs under the default name (first, last, random bit) -> block
+    for opts in 0..4u8 {
+        for h in [1usize, 8, 16, 32] {
+            v.push(format!("box:xb:{opts}:{}:{}:3x1:{}:0={}.{h}.{}.n", 1 + rng.below(2), if rng.chance(1, 2) { format!("c{}", rng.below(1000)) } else { "d".into() }, rng.below(50), kinds[rng.below(6) as usize], rng.below(1000)));
+        }
+        v.push(format!("box:xb:{opts}:1:d:3x1:{}:0=d.16.0.n", rng.below(50)));
+        v.push(format!("box:xb:{opts}:1:d:3x1:{}:0=d.16.0.-", rng.below(50)));
+        for bit in [1u64, 32768, 1 + rng.below(32768)] {
+            v.push(format!("box:xb:{opts}:2:d:3x1:{}:0=d.16.{bit}.n", rng.below(50)));
+        }
+        v.push(format!("box:xb:{opts}:1:d:4x1:{}:0=d.16.{}.n,1=d.16.0.n", rng.below(50), 1 + rng.below(32768)));
+    }
     // outside the formats' domain: the writers have to refuse (three pages; second font of another height; a page without a
     // font; heights above 32; a 512-glyph font; ADF / IDF with a font that is not 8x16)
     for opts in [0u8, 3] {
